@@ -38,18 +38,32 @@ class VariantEdge(Cut):
         return out or None
 
 
-def no_effects(chk, W, rule, contract, vpath, cuts, label, which="execute", opaque=()):
+class CallTrue(Cut):
+    """Switch on the bool returned by a (local or external) function whose id matches: remove the
+    edge taken when it returned true."""
+
+    def __init__(self, callee_pat, name=None, truth=True):
+        self.pat = callee_pat
+        self.name = name or "true(%s)" % callee_pat
+        self.truth = truth
+
+    def remove(self, I, frame, pname, pargs, positive, labels3, opv):
+        if not any(re.search(self.pat, c) for c in call_tag(opv)):
+            return None
+        return _bool_targets(labels3, self.truth)
+
+
+def no_effects(chk, W, rule, contract, vpath, cuts, label, which="execute", opaque=(), effects=None, extra=()):
     """Obligation: with the accept edges of `cuts` removed, no storage write / outflow is reachable
     from the entry variant.  Also requires that each cut matched at least one switch (anchor)."""
-    pol = CutPolicy(cuts, opaque=opaque)
+    pol = CutPolicy(list(cuts) + list(extra), opaque=opaque)
     A = W.run(contract, which, vpath, pol)
-    inst = "%s/%s cut{%s}" % (contract, "/".join(vpath or ()), ",".join(c.name for c in cuts))
-    missing = [c.name for c in cuts if c.name not in pol.hits]
-    if missing:
-        chk.fail(rule, inst, "guard not found on any path of this handler: %s" % missing,
+    inst = "%s/%s cut{%s}%s" % (contract, "/".join(vpath or ()), ",".join(c.name for c in cuts), label)
+    if not any(c.name in pol.hits for c in cuts):
+        chk.fail(rule, inst, "guard not found on any path of this handler: %s" % [c.name for c in cuts],
                  "entry %s" % A.entry)
         return False
-    eff = A.effects()
+    eff = effects(A) if effects else A.effects()
     if eff:
         e = eff[0]
         chk.fail(rule, inst, "%d effect(s) reachable without crossing the guard(s); first: %s %s" %
@@ -89,3 +103,50 @@ def field_val(ev, fname):
         if f == fname:
             return v
     return EMPTY
+
+
+def overrides(v, base, path=()):
+    """Field paths of `v` whose value is not just the corresponding part of `base` (an origin
+    string).  Returns list of (path tuple, Val)."""
+    out = []
+    for k, f in v.fields.items():
+        if k.startswith("#"):
+            continue
+        sub = "%s[*]" % base if k == "[*]" else "%s.%s" % (base, k)
+        only_base = {o for (o, ops) in f.atoms} <= {sub} and all(not ops for (o, ops) in f.atoms)
+        if f.fields:
+            out += overrides(f, sub, path + (k,))
+            if not only_base:
+                out.append((path + (k,), f))
+        elif not only_base:
+            out.append((path + (k,), f))
+    return out
+
+
+def may_tags(v, tag, depth=0):
+    """All '#may:<tag>' markers anywhere in the tree."""
+    out = set()
+    if depth > 8:
+        return out
+    t = v.fields.get("#may:" + tag)
+    if t is not None:
+        out |= {o for (o, ops) in t.atoms}
+    for k, f in v.fields.items():
+        if not k.startswith("#"):
+            out |= may_tags(f, tag, depth + 1)
+    return out
+
+
+def pool_writes(A):
+    return [e for e in A.writes() if e.extra.get("item") == "POOLS"]
+
+
+def status_reads(A):
+    """flags of Store(POOLS).status read by any switch of the analysis."""
+    flags = set()
+    for e in A.switches():
+        for (o, ops) in flat_atoms(e.vals[0]):
+            m = re.match(r"Store\(POOLS\)\.status\.(\w+)$", o)
+            if m:
+                flags.add(m.group(1))
+    return flags
